@@ -343,6 +343,22 @@ func (self *Analyzer) letStatement(node pAst.LetStatement, isGlobal bool) ast.An
 		varType = ast.NewUnknownType()
 	}
 
+	if isGlobal {
+		// function signatures are registered before the globals: prevent a global from taking the name of a function
+		if fn, exists := self.currentModule.getFunc(node.Ident.Ident()); exists {
+			self.error(
+				fmt.Sprintf("Duplicate definition of '%s': the name is already used by a function", node.Ident.Ident()),
+				[]string{"Consider changing the name of this variable"},
+				node.Ident.Span(),
+			)
+			self.hint(
+				fmt.Sprintf("Function '%s' defined here", node.Ident.Ident()),
+				nil,
+				fn.FnType.(normalFunction).Ident.Span(),
+			)
+		}
+	}
+
 	// `force-add` is desired here, the variable should be shadowed
 	if prev := self.currentModule.addVar(node.Ident.Ident(), NewVar(varType, node.Ident.Span(), NormalVariableOriginKind, node.IsPub), true); prev != nil {
 		if isGlobal {
